@@ -66,6 +66,8 @@ struct Prog {
     prog: Programsize,
     int_enabled: bool,
     run_edges: u32,
+    /// the continue key is pressed as soon as the machine is Stopped (before the next edge)
+    cont: bool,
 }
 
 impl Prog {
@@ -80,13 +82,29 @@ impl Prog {
     }
     fn line(&self, e: u32, int: bool, k: u32) -> String {
         format!(
-            "step e={} int={} k={} stack={} prog={} micr={} edges={} {}",
-            e, int as u8, k,
+            "step e={} int={} k={} cont={} stack={} prog={} micr={} edges={} {}",
+            e, int as u8, k, self.cont as u8,
             crate::c05::SIZES.iter().position(|s| *s == self.stack).unwrap_or(0),
             match self.prog { Programsize::Size(n) => n as i32, _ => -1 },
             self.int_enabled as u8, self.run_edges, self.case.line()
         )
     }
+}
+
+/// Run `e` edges of the program; with `cont` the continue key is pressed whenever the machine is
+/// Stopped (also at the very end, so the state handed out may be "just continued").
+fn run_to(p: &Prog, e: u32) -> Machine {
+    let mut m = p.machine();
+    for _ in 0..e {
+        if p.cont && m.state() == State::Stopped {
+            m.trigger_key_continue();
+        }
+        m.raw_mut().trigger_clock_edge();
+    }
+    if p.cont && m.state() == State::Stopped {
+        m.trigger_key_continue();
+    }
+    m
 }
 
 fn parse_line(line: &str) -> (Prog, u32, bool, u32) {
@@ -104,6 +122,7 @@ fn parse_line(line: &str) -> (Prog, u32, bool, u32) {
             prog,
             int_enabled: kv["micr"] == "1",
             run_edges: mc::num(&kv["edges"]) as u32,
+            cont: kv.get("cont").map(|c| c == "1").unwrap_or(false),
         },
         mc::num(&kv["e"]) as u32,
         kv["int"] == "1",
@@ -217,6 +236,7 @@ fn corpus(quick: bool) -> Vec<Prog> {
                     prog: free.1,
                     int_enabled: true,
                     run_edges: if long_div { 200 } else { 70 },
+                    cont: false,
                 });
             }
         }
@@ -242,10 +262,18 @@ fn corpus(quick: bool) -> Vec<Prog> {
                         prog: free.1,
                         int_enabled: true,
                         run_edges: 110,
+                        cont: false,
                     });
                 }
             }
         }
+    }
+    // the same programs with the continue key pressed as soon as they stop (states "just continued")
+    let with_stop: Vec<Prog> = v.iter().filter(|p| p.name.split(" ; ").any(|n| n == "STOP")).cloned().collect();
+    for mut p in with_stop {
+        p.cont = true;
+        p.name = format!("{} [continue]", p.name);
+        v.push(p);
     }
     // supervised programs that halt by SP / PC rule in the middle of an instruction
     for (name, code, stack, prog, sp) in [
@@ -263,6 +291,7 @@ fn corpus(quick: bool) -> Vec<Prog> {
             prog,
             int_enabled: false,
             run_edges: 120,
+            cont: false,
         });
     }
     v
@@ -282,6 +311,7 @@ fn opcode_progs() -> Vec<(Prog, bool)> {
                 prog: Programsize::Size(255),
                 int_enabled: false,
                 run_edges: 0,
+                cont: false,
             },
             defined_first(b),
         ));
@@ -297,6 +327,7 @@ fn opcode_progs() -> Vec<(Prog, bool)> {
                     prog: Programsize::Size(255),
                     int_enabled: false,
                     run_edges: 0,
+                    cont: false,
                 },
                 defined_second(b),
             ));
@@ -309,10 +340,7 @@ fn opcode_progs() -> Vec<(Prog, bool)> {
 /// if the call never returns.
 pub fn child(line: &str) {
     let (p, e, int, k) = parse_line(line);
-    let mut m = p.machine();
-    for _ in 0..e {
-        m.raw_mut().trigger_clock_edge();
-    }
+    let mut m = run_to(&p, e);
     if int {
         m.trigger_key_interrupt();
     }
@@ -365,6 +393,9 @@ fn explore(p: &Prog, out: &mut Out) {
         let mut local = Out::default();
         let mut m = p.machine();
         for e in 0..=p.run_edges {
+            if p.cont && m.state() == State::Stopped {
+                m.trigger_key_continue();
+            }
             for int in [false, true] {
                 if int && !p.int_enabled {
                     continue;
@@ -438,10 +469,7 @@ pub fn run() {
         let text = std::fs::read_to_string(&f).expect("replay file");
         let line = text.lines().next().unwrap_or("").to_string();
         let (p, e, int, k) = parse_line(&line);
-        let mut m = p.machine();
-        for _ in 0..e {
-            m.raw_mut().trigger_clock_edge();
-        }
+        let mut m = run_to(&p, e);
         if int {
             m.trigger_key_interrupt();
         }
